@@ -622,33 +622,85 @@ theorem C12_handshake (nodes : List Nat) (es : List DEdge) (size : Option Nat) (
 /-! ### the loops of `reciprocity.py` and `hyperedge_signature.py` compute the closed forms -/
 
 /-- what the dict-building first loops hold when they end: `tot[k]` = number of hyperedges of the bounded set of size `k`;
-`edge_set` = the bounded set; `s ∈ node_reach[n]` iff some hyperedge of the bounded set has `n` among its sources and `s`
-among its targets (a node that is nobody's source has no entry); `(i, j) ∈ bin_edges` iff some hyperedge of the bounded
-set has `i` as a source and `j` as a target -/
+`edge_set` has the members of the bounded set, and on a duplicate-free listing (`get_edges()`) exactly that list in order;
+`s ∈ node_reach[n]` iff some hyperedge of the bounded set has `n` among its sources and `s` among its targets (a node that
+is nobody's source has no entry); `(i, j) ∈ bin_edges` iff some hyperedge of the bounded set has `i` as a source and `j`
+as a target -/
 theorem C12_loop_tables (es : List DEdge) (m : Nat) :
     (∀ k, k ≤ m → (totLoop es m).getD k 0 = total (bounded m es) k) ∧
-    edgeSetLoop es m = bounded m es ∧
+    (∀ e, e ∈ edgeSetLoop es m ↔ e ∈ bounded m es) ∧ (es.Nodup → edgeSetLoop es m = bounded m es) ∧
     (∀ n s, (∃ r, AL.get? (reachLoop es m) n = some r ∧ s ∈ r) ↔ ∃ f ∈ bounded m es, n ∈ f.1 ∧ s ∈ f.2) ∧
     (∀ i j, (i, j) ∈ binLoop es m ↔ ∃ f ∈ bounded m es, i ∈ f.1 ∧ j ∈ f.2) := by
-  refine ⟨?_, edgeSetLoop_eq es m, fun n s => inTbl_reachLoop es m n s, fun i j => mem_binLoop es m (i, j)⟩
+  refine ⟨?_, mem_edgeSetLoop es m, edgeSetLoop_eq es m, fun n s => inTbl_reachLoop es m n s,
+    fun i j => mem_binLoop es m (i, j)⟩
   intro k hk
   unfold totLoop total ofSize
   rw [countLoopIf_getD _ _ _ _ _ (by omega), bounded_eq_filter]
 
-/-- the three routines, run loop by loop as written (`tot`, `edge_set`, the reach / pair tables, `rec`, the division), return
-the tables of `Model/C12.lean` - to which `C12_order`, `C12_range`, `C12_empty_size` apply -/
-theorem C12_loops (es : List DEdge) (m : Nat) :
-    exactLoop es m = reciprocityTable isExact es m ∧
-    strongLoop es m = reciprocityTable isStrong es m ∧
-    weakLoop es m = reciprocityTable isWeak es m :=
-  ⟨loop_table _ isExact es m (exactTest_eq es m), loop_table _ isStrong es m (strongTest_eq es m),
-   loop_table _ isWeak es m (weakTest_eq es m)⟩
+/-- the first loop of the three routines is ONE pass over `get_edges()` that fills all its tables; the pass leaves
+exactly the tables of `C12_loop_tables` -/
+theorem C12_first_loop (es : List DEdge) (m : Nat) :
+    firstLoop es m = { tot := totLoop es m, edgeSet := edgeSetLoop es m, reach := reachLoop es m,
+                       bins := binLoop es m } :=
+  firstLoop_eq es m
+
+/-- the three routines, run loop by loop as written (first loop: `tot`, `edge_set`, the reach / pair tables; second loop
+over `edge_set`: `rec`; third loop: the division), return the tables of `Model/C12.lean` - to which `C12_order`,
+`C12_range`, `C12_empty_size` apply.  `es.Nodup`: `get_edges()` lists every hyperedge once (`C12_link_listing`). -/
+theorem C12_loops (es : List DEdge) (m : Nat) (hn : es.Nodup) :
+    exactRun es m = reciprocityTable isExact es m ∧
+    strongRun es m = reciprocityTable isStrong es m ∧
+    weakRun es m = reciprocityTable isWeak es m := by
+  refine ⟨?_, ?_, ?_⟩
+  · unfold exactRun; rw [firstLoop_eq]; exact loop_table _ isExact es m hn (exactTest_eq es m)
+  · unfold strongRun; rw [firstLoop_eq]; exact loop_table _ isStrong es m hn (strongTest_eq es m)
+  · unfold weakRun; rw [firstLoop_eq]; exact loop_table _ isWeak es m hn (weakTest_eq es m)
+
+/-- the hyperedges of one size whose reverse is present come in pairs: `rec[k]` of `exact_reciprocity` is even before the
+division (duplicate-free listing, non-empty disjoint sides - the property's quantifier) -/
+theorem C12_exact_even (es : List DEdge) (m k : Nat) (hn : es.Nodup)
+    (hd : ∀ e ∈ es, e.1 ≠ [] ∧ ∀ x ∈ e.1, x ∉ e.2) :
+    recCount isExact (bounded m es) k % 2 = 0 := by
+  apply recCount_exact_even _ k ((List.filter_sublist).nodup hn)
+  intro e he heq
+  have h := hd e (List.mem_filter.mp he).1
+  obtain ⟨x, hx⟩ := List.exists_mem_of_ne_nil _ h.1
+  exact h.2 x hx (heq ▸ hx)
 
 /-- `np.zeros((m-1, m-1))`, `signature[s-1, t-1] += 1` per hyperedge within the bound, `flatten()` = the flat vector of
 `Model/C12.lean` (non-empty sides: no index leaves its row) -/
 theorem C12_signature_loop (es : List DEdge) (m : Nat) (hne : ∀ e ∈ es, e.1 ≠ [] ∧ e.2 ≠ []) :
     signatureLoop es m = signature es m :=
   signatureLoop_eq es m hne
+
+/-- EVERY cell of the vector: row `a`, column `b` (0-based, both below `m - 1`) holds the number of hyperedges within the
+bound with `a + 1` sources and `b + 1` targets; the cells with `a + b + 2 > m` are 0 -/
+theorem C12_signature_all_cells (es : List DEdge) (m a b : Nat) (ha : a < m - 1) (hb : b < m - 1)
+    (hne : ∀ e ∈ es, e.1 ≠ [] ∧ e.2 ≠ []) :
+    (signature es m)[a * (m - 1) + b]? =
+      some (es.countP (fun e => decide (esize e ≤ m) && (e.1.length == a + 1 && e.2.length == b + 1))) ∧
+    (m < a + b + 2 → (signature es m)[a * (m - 1) + b]? = some 0) := by
+  have h := signature_cell_all es m a b ha hb hne
+  have e1 : (signature es m)[a * (m - 1) + b]? =
+      some (es.countP (fun e => decide (esize e ≤ m) && (e.1.length == a + 1 && e.2.length == b + 1))) := by
+    rw [h, List.filter_filter, ← List.countP_eq_length_filter]
+    congr 1
+    apply List.countP_congr
+    intro e he
+    have hl1 : 1 ≤ e.1.length := List.length_pos_iff.mpr (hne e he).1
+    have hl2 : 1 ≤ e.2.length := List.length_pos_iff.mpr (hne e he).2
+    simp only [Bool.and_eq_true, beq_iff_eq, decide_eq_true_eq]
+    omega
+  refine ⟨e1, ?_⟩
+  intro hm
+  rw [e1]
+  congr 1
+  rw [List.countP_eq_zero]
+  intro e _
+  simp only [Bool.and_eq_true, beq_iff_eq, esize]
+  rintro ⟨h1, h2, h3⟩
+  have h1' := of_decide_eq_true h1
+  omega
 
 /-- the default bound is the largest size: no hyperedge = empty vector; otherwise the vector for `m = max size`, whose
 cells sum to the number of ALL hyperedges, and some hyperedge has exactly that size -/
@@ -766,13 +818,19 @@ theorem C12_reverse (es : List DEdge) (m k : Nat) (size : Option Nat) (n : Nat) 
 
 /-- after every history of public calls (C02's quantifier; rejected calls included), for the object in any slot, every
 filter: Σ in-degrees = Σ source sizes, Σ out-degrees = Σ target sizes of the selected hyperedges of `get_edges()`; the
-flattened 2-d accumulation is the signature; the anti-diagonals of the signature are the reciprocity denominators -/
+flattened 2-d accumulation is the signature; the anti-diagonals of the signature are the reciprocity denominators; the
+three routines run loop by loop return the closed-form tables; the exactly reciprocated hyperedges of a size are even
+in number -/
 theorem C12_hist_identities (cs : List C02.Cmd) (hcs : ∀ c ∈ cs, c.WF) (slot : Nat) (s : C02.Store)
     (hs : AL.get? (histRun [] cs) slot = some s) (m k : Nat) (size : Option Nat) :
     sumInDegrees (histNodes s) (histListing s) size = sumSourceSizes (histListing s) size ∧
     sumOutDegrees (histNodes s) (histListing s) size = sumTargetSizes (histListing s) size ∧
     signatureLoop (histListing s) m = signature (histListing s) m ∧
-    (2 ≤ k → k ≤ m → sigDiagonal (signature (histListing s) m) m k = total (bounded m (histListing s)) k) := by
+    (2 ≤ k → k ≤ m → sigDiagonal (signature (histListing s) m) m k = total (bounded m (histListing s)) k) ∧
+    exactRun (histListing s) m = reciprocityTable isExact (histListing s) m ∧
+    strongRun (histListing s) m = reciprocityTable isStrong (histListing s) m ∧
+    weakRun (histListing s) m = reciprocityTable isWeak (histListing s) m ∧
+    recCount isExact (bounded m (histListing s)) k % 2 = 0 := by
   rw [(C12_hist_run [] cs).1] at hs
   have l := C12_link_listing cs hcs slot s hs
   have hne : ∀ e ∈ listing s, e.1 ≠ [] ∧ e.2 ≠ [] := fun e he => by
@@ -782,7 +840,65 @@ theorem C12_hist_identities (cs : List C02.Cmd) (hcs : ∀ c ∈ cs, c.WF) (slot
     have := l.2.2.2.2.2.2 e he
     exact ⟨this.2.2.1.nodupS, this.2.2.1.nodupT, this.2.2.2⟩
   have h := C12_handshake (C02.nodes s) (listing s) size l.2.2.2.2.2.1 hsd
-  exact ⟨h.1, h.2.1, C12_signature_loop _ m hne, fun h1 h2 => C12_signature_diagonal _ m k h1 h2 hne⟩
+  have hl := C12_loops (listing s) m l.2.2.2.2.1
+  have hev := C12_exact_even (listing s) m k l.2.2.2.2.1 (fun e he => by
+    have := l.2.2.2.2.2.2 e he
+    exact ⟨this.1, fun x hx => this.2.2.1.disj x hx⟩)
+  exact ⟨h.1, h.2.1, C12_signature_loop _ m hne, fun h1 h2 => C12_signature_diagonal _ m k h1 h2 hne,
+    hl.1, hl.2.1, hl.2.2, hev⟩
+
+/-- the caller's `order` / `size` as the filter of the container model C02 -/
+def C12.filtOf : Option Nat → Option Nat → C02.Filt
+  | none, none => .all
+  | none, some k => .size k
+  | some o, none => .order o
+  | some _, some _ => .both
+
+/-- **the degree calls with their options, every history.**  For every reachable object, EVERY node label (listed or not)
+and every combination of `order` / `size`: C12's `inDegreeCall / outDegreeCall` on the object's two listings is what the
+container model's `in_degree / out_degree` answers - the same refusals (`none`) and the same counts -/
+theorem C12_link_degree_calls (s : C02.Store) (hr : ReachableD s) (order size : Option Nat) (n : Nat) :
+    inDegreeCall (C02.nodes s) (listing s) order size n = C02.inDegree s n (filtOf order size) ∧
+    outDegreeCall (C02.nodes s) (listing s) order size n = C02.outDegree s n (filtOf order size) := by
+  have ht : filterArg order size = (filtOf order size).target := by
+    cases order <;> cases size <;> rfl
+  by_cases hn : n ∈ C02.nodes s
+  · have hc := mem_nodes_check s n hn
+    cases hf : (filtOf order size).target with
+    | none =>
+      have hb : filtOf order size = .both := by
+        cases order <;> cases size <;> simp_all [filtOf, C02.Filt.target]
+      have r := C12_link_degrees_rejected s hr n (filtOf order size) (Or.inr hb)
+      rw [r.1, r.2]
+      simp [inDegreeCall, outDegreeCall, ht, hf]
+    | some t =>
+      have l := C12_link_degrees s hr n hc (filtOf order size) t hf
+      rw [l.2.2.2.2.1, l.2.2.2.2.2.1]
+      simp [inDegreeCall, outDegreeCall, ht, hf, hn]
+  · have hc : C02.checkNode s n = false := by
+      cases h : C02.checkNode s n with
+      | false => rfl
+      | true =>
+        exfalso; apply hn
+        unfold C02.checkNode AL.has at h
+        unfold C02.nodes
+        cases hg : AL.get? s.adjS n with
+        | none => simp [hg] at h
+        | some v =>
+          apply Decidable.byContradiction
+          intro hnot
+          rw [(AL.get?_eq_none_iff s.adjS n).mpr hnot] at hg
+          cases hg
+    have r := C12_link_degrees_rejected s hr n (filtOf order size) (Or.inl hc)
+    rw [r.1, r.2]
+    simp [inDegreeCall, outDegreeCall, hn]
+
+example : inDegreeCall (C02.nodes C12.exampleObject) (listing C12.exampleObject) (some 1) none 1 = some 2 ∧
+    C02.inDegree C12.exampleObject 1 (C12.filtOf (some 1) none) = some 2 ∧
+    outDegreeCall (C02.nodes C12.exampleObject) (listing C12.exampleObject) (some 1) (some 2) 1 = none ∧
+    C02.outDegree C12.exampleObject 1 (C12.filtOf (some 1) (some 2)) = none ∧
+    inDegreeCall (C02.nodes C12.exampleObject) (listing C12.exampleObject) none none 8 = none ∧
+    C02.inDegree C12.exampleObject 8 (C12.filtOf none none) = none := by decide
 
 /-! ### non-vacuity of the extension round: the 6-hyperedge example -/
 def C12.exN : List Nat := [1, 2, 3, 4, 5, 6, 7, 9]
@@ -806,6 +922,10 @@ example : signatureMatrix C12.exE 3 = [[5, 0], [1, 0]] ∧ signatureLoop C12.exE
     sigSourceWeighted (signature C12.exE 3) 3 = 7 ∧ sigTargetWeighted (signature C12.exE 3) 3 = 6 ∧
     sigDiagonal (signature C12.exE 3) 3 2 = 5 ∧ sigDiagonal (signature C12.exE 3) 3 3 = 1 ∧
     signature (reverse C12.exE) 3 = [5, 1, 0, 0] := by decide
+example : C12.exE.Nodup ∧ (∀ e ∈ C12.exE, e.1 ≠ [] ∧ ∀ x ∈ e.1, x ∉ e.2) ∧
+    recCount isExact (bounded 3 C12.exE) 2 = 2 ∧ (firstLoop C12.exE 3).tot = [0, 0, 5, 1] ∧
+    (firstLoop C12.exE 3).bins = [(1, 2), (2, 1), (1, 3), (3, 1), (7, 1), (5, 6), (4, 5)] ∧
+    edgeSetLoop [([1], [2]), ([1], [2])] 2 = [([1], [2])] := by decide
 example : totLoop C12.exE 3 = [0, 0, 5, 1] ∧ edgeSetLoop C12.exE 2 = [([1], [2]), ([2], [1]), ([1], [3]), ([5], [6]), ([4], [5])] ∧
     reachLoop C12.exE 3 = [(1, [2, 3]), (2, [1]), (3, [1]), (7, [1]), (5, [6]), (4, [5])] ∧
     binLoop C12.exE 2 = [(1, 2), (2, 1), (1, 3), (5, 6), (4, 5)] ∧
